@@ -329,6 +329,28 @@ func extractWire() {
 			return true
 		})
 	}
+	// subprotocol strings and frame type
+	wsSub := []string{}
+	for _, fd := range p.allFuncs() {
+		if fd.Body == nil {
+			continue
+		}
+		ast.Inspect(fd.Body, func(x ast.Node) bool {
+			switch e := x.(type) {
+			case *ast.BinaryExpr:
+				if e.Op == token.ADD && strings.Contains(exprString(e.Y), "sp.nanomsg.org") {
+					wsSub = append(wsSub, fd.Name.Name+":"+exprString(e.X)+"+"+strings.Trim(exprString(e.Y), "\""))
+				}
+			case *ast.KeyValueExpr:
+				if exprString(e.Key) == "dtype" {
+					wsSub = append(wsSub, fd.Name.Name+":dtype="+exprString(e.Value))
+				}
+			}
+			return true
+		})
+	}
+	sort.Strings(wsSub)
+	emit("def wsSubprotocol : List String := %s\n", leanStrList(wsSub))
 	emit("def wsSendShape : List String := %s\n", leanStrList(wsSend))
 	emit("def wsReadLimits : List String := %s\n\n", leanStrList(wsLimits))
 }
